@@ -1336,6 +1336,11 @@ export class TupleRuntype extends BaseRuntype {
     let idx = 0;
     let acc = [];
     for (const prefixItem of this.prefix) {
+      // an input shorter than the prefix was accepted because the missing positions admit undefined:
+      // the result keeps the input's length instead of being padded with undefined
+      if (idx >= input.length) {
+        break;
+      }
       acc.push(prefixItem.parseAfterValidation(ctx, input[idx]));
       idx++;
     }
